@@ -135,7 +135,12 @@ class Executor:
         return sol.check() != z3.unsat
 
     def oblige(self, name, st, goal, kind='post', info=None):
-        self.obligs.append(Oblig(self.prefix + name, st.pc, goal, st.path, kind, info))
+        o = Oblig(self.prefix + name, st.pc, goal, st.path, kind, info)
+        if sym.UNROLL:
+            # bounded unrolling explores real executions: the state reached is kept, so that a counter-model can say what
+            # the real code is predicted to do (compared with the native run by the replay harness)
+            o.state = st
+        self.obligs.append(o)
 
     def split(self, st, cond, label):
         """Fork on a z3 condition; returns [(bool, state)] for the feasible sides."""
